@@ -397,6 +397,16 @@ func TestVerifC12(t *testing.T) {
 			ccs = append(ccs, cc{rng.Bytes(l), y, "x-wrong-length"})
 			ccs = append(ccs, cc{x, rng.Bytes(l), "y-wrong-length"})
 		}
+		// coordinates that are TOO LONG but begin (or end) with the coordinates of a point on the curve: a decoder that
+		// looks at a fixed-length view of its input sees a valid point
+		if i%4 == 0 {
+			extra := rng.Bytes([]int{1, 8, 32}[(i/4)%3])
+			ccs = append(ccs, cc{append(append([]byte{}, x...), extra...), y, "x-too-long-with-valid-prefix"})
+			ccs = append(ccs, cc{x, append(append([]byte{}, y...), extra...), "y-too-long-with-valid-prefix"})
+			ccs = append(ccs, cc{append(append([]byte{}, x...), extra...), append(append([]byte{}, y...), extra...), "both-too-long-with-valid-prefix"})
+			ccs = append(ccs, cc{append(append([]byte{}, extra...), x...), append(append([]byte{}, extra...), y...), "both-too-long-with-valid-suffix"})
+			ccs = append(ccs, cc{append(make([]byte, len(extra)), x...), append(make([]byte, len(extra)), y...), "both-too-long-with-leading-zeros"})
+		}
 	}
 	z := make([]byte, 32)
 	ccs = append(ccs, cc{z, z, "(0,0)"}, cc{ref.B32(ref.SM2Gx), ref.B32(ref.SM2Gy), "G"}, cc{nil, nil, "nil"},
